@@ -31,6 +31,7 @@ type cancelSpec struct {
 	Via     string `json:"via"`       // runner | scheduler
 	Cmd     string `json:"cmd"`       // sleep | busy | ignore-int | builtin
 	Jitter  int    `json:"jitter_us"` // free-running variant: cancel after this many microseconds instead of at a hook
+	Allow   bool   `json:"allow_failure"`
 }
 
 type cancelHarness struct {
@@ -186,6 +187,11 @@ func modeCancel1(a args) {
 		if sp.Point == "before-hook" {
 			t.Before = []string{tok("B:" + id)}
 		}
+		if sp.Point == "after-hook" {
+			// the cancellation arrives while the task's after-hook is running
+			t.After = []string{tok("A:"+id+":S") + "; " + blocker(sp.Cmd, pidfile) + "; " + tok("A:"+id+":E"), tok("A2:" + id)}
+		}
+		t.AllowFailure = sp.Allow
 		return t
 	}
 	var tasks []*task.Task
@@ -325,12 +331,15 @@ func modeCancel1(a args) {
 			return
 		}
 		doCancel()
-	case "during-command":
+	case "during-command", "after-hook":
 		deadline := time.Now().Add(15 * time.Second)
 		for {
 			n := 0
 			for _, f := range strings.Fields(h.ReadFile(trace)) {
-				if strings.HasPrefix(f, "S:") && strings.HasSuffix(f, ":0") {
+				if sp.Point == "during-command" && strings.HasPrefix(f, "S:") && strings.HasSuffix(f, ":0") {
+					n++
+				}
+				if sp.Point == "after-hook" && strings.HasPrefix(f, "A:") && strings.HasSuffix(f, ":S") {
 					n++
 				}
 			}
@@ -427,7 +436,7 @@ func modeCancel1(a args) {
 	ccall := pos["CANCEL_CALL"]
 	if haveRet {
 		for i, t := range toks {
-			if i > cret && (strings.HasPrefix(t, "S:") || strings.HasPrefix(t, "B:")) {
+			if i > cret && (strings.HasPrefix(t, "S:") || strings.HasPrefix(t, "B:") || strings.HasPrefix(t, "A2:") || (strings.HasPrefix(t, "A:") && strings.HasSuffix(t, ":E"))) {
 				fail("command-started-after-cancel-returned", fmt.Sprintf("token %s appears after CANCEL_RET", t))
 			}
 		}
